@@ -763,6 +763,10 @@ pub fn space_noise(v: &[u8], t: &mut Tape, noise: u64) -> Vec<u8> {
 /// Render the form body for `pairs` (fixed at message creation; part of what is signed when the
 /// node does not fold).
 pub fn render_form_body(pairs: &[(Vec<u8>, Vec<u8>)], t: &mut Tape, noise: u64) -> Vec<u8> {
+    if pairs.is_empty() && noise > 0 && t.chance(3) {
+        // a non-empty form body that carries no parameter at all
+        return vec![b'&'; 1 + t.below(3)];
+    }
     spell_pairs(pairs, t, noise, false)
 }
 
